@@ -19,6 +19,8 @@ from ..lib import driver, gen, implrun, ser
 
 ID = "C04"
 LEAN_MODULES = ["TakVerif.Props.C04"]
+# cross-operation sessions (lib/session.py): which operations this property judges
+SESSION = {"kinds": {"inv"}}
 RULE = (
     "One evaluation = one visited state of the implementation (after an accepted OR a refused attempt, or an initial / "
     "from_squares position) on which the driver evaluated Inv (plus PlyTurnOK after every accepted move and Opening1/2 "
